@@ -893,15 +893,38 @@ class FnEmit:
         s.entry_label = '%%%d' % n
     def lname(s, n):
         if n in getattr(s, 'inl', ()): return s.inl[n]
-        if s.thread: return 'F->v_' + cid(n)
+        if s.thread and n not in getattr(s, 'blocklocal', ()): return 'F->v_' + cid(n)
         return 'v_' + cid(n)
+    def cs_kind(s, I):
+        """None, 'pre' (context-switch point before the instruction) or 'mid' (two-phase blocking call: split inside)"""
+        if not s.thread: return None
+        em = s.em; o = em.opts
+        if I.op == 'call':
+            if I.asm:
+                hook = o.asm.get(I.asm[0].strip('"'))
+                return 'mid' if (hook or '').startswith('verif_switch') else None
+            c = I.callee
+            if c.kind == 'global':
+                name = c.data
+                while name in em.mod.aliases and em.mod.aliases[name].kind == 'global': name = em.mod.aliases[name].data
+                if any(re.search(rx, name) for rx, _ in o.blocking): return 'mid'
+                if name[1:].startswith('verif_block'): return 'pre'
+            return None
+        if o.cs_none: return None
+        if I.op in ('cmpxchg', 'atomicrmw'): return 'pre'
+        if I.op in ('load', 'store') and (I.atomic or not o.cs_atomic_only):
+            if I.ptr.kind == 'local' and I.ptr.data in s.priv: return None
+            return 'pre'
+        return None
     def plan_inlining(s):
-        """pure single-block SSA values are rendered at their use instead of getting a C local: fewer assignments,
-        hence fewer phi merges in CBMC's symbolic execution.  Safe because SSA operands are immutable and, within one
-        basic block, the C variables that stand for phi nodes are not reassigned."""
-        s.inl = {}; s.inl_ok = set(); s.blocklocal = {}
-        if s.em.opts.no_inline_expr: return
-        defs = {}; useblocks = collections.defaultdict(list)
+        """Locality analysis.  A value whose definition and every use lie in the same *segment* (part of one basic block
+        between two context-switch points; the whole block in sequential mode) is (a) rendered at its use when it is a
+        pure single-use expression, or (b) declared in a C block scope around that segment, so CBMC kills it at the closing
+        brace and it takes no part in later path merges.  Everything else is a function-level local (sequential mode) or a
+        field of the resumable frame (thread mode).  Safe because SSA operands are immutable and, inside one basic block,
+        the C variables standing for phi nodes are not reassigned."""
+        s.inl = {}; s.inl_ok = set(); s.blocklocal = {}; s.segof = {}
+        defs = {}; uses = collections.defaultdict(list); lastseg = {}
         def vals(I):
             for k, v in I.__dict__.items():
                 if isinstance(v, V): yield v
@@ -909,26 +932,35 @@ class FnEmit:
                     for x in v:
                         if isinstance(x, V): yield x
                         elif isinstance(x, tuple) and x and isinstance(x[0], V): yield x[0]
+        phi_uses = []
         for bl, ins in s.f.blocks.items():
+            seg = 0
             for I in ins:
-                if I.res is not None: defs[I.res] = (bl, I)
+                k = s.cs_kind(I) if I.op != 'phi' else None
+                if k == 'pre': seg += 1; useseg = defseg = seg
+                elif k == 'mid': useseg = seg; seg += 1; defseg = seg
+                else: useseg = defseg = seg
+                s.segof[id(I)] = (useseg, defseg)
+                if I.res is not None: defs[I.res] = (bl, defseg, I)
                 if I.op == 'phi':
                     for val, lb in I.inc:
-                        if val.kind == 'local': useblocks[val.data].append('%entry__' if (lb == s.entry_label and lb not in s.f.blocks) else lb)
+                        if val.kind == 'local': phi_uses.append((val.data, '%entry__' if (lb == s.entry_label and lb not in s.f.blocks) else lb))
                 else:
                     for v in vals(I):
-                        if v.kind == 'local': useblocks[v.data].append(bl)
-        s.blocklocal = {}
-        for r, (bl, I) in defs.items():
-            ub = useblocks.get(r, [])
-            if I.op not in ('phi', 'alloca') and all(b == bl for b in ub):
-                s.blocklocal[r] = bl
-        for r, (bl, I) in defs.items():
+                        if v.kind == 'local': uses[v.data].append((bl, useseg))
+            lastseg[bl] = seg
+        for r, lb in phi_uses: uses[r].append((lb, lastseg.get(lb, 0)))
+        for r, (bl, seg, I) in defs.items():
+            if I.op in ('phi', 'alloca'): continue
+            if all(u == (bl, seg) for u in uses.get(r, [])):
+                s.blocklocal[r] = (bl, seg)
+        if s.em.opts.no_inline_expr: return
+        for r, (bl, seg, I) in defs.items():
             pure = (I.op == 'bin' and I.bop not in ('udiv', 'sdiv', 'urem', 'srem') and not isinstance(I.ty, FloatTy)) or \
                    I.op in ('icmp', 'cast', 'gep') or (I.op == 'select')
-            if not pure: continue
-            ub = useblocks.get(r, [])
-            if not ub or any(b != bl for b in ub): continue
+            if not pure or r not in s.blocklocal: continue
+            ub = uses.get(r, [])
+            if not ub: continue
             if len(ub) > 1 and I.op not in ('gep', 'cast'): continue
             if len(ub) > 3: continue
             s.inl_ok.add(r)
@@ -996,10 +1028,10 @@ class FnEmit:
         return set(r for r, a in derived.items() if a not in escaped)
     def cs(s, ptr=None):
         """context-switch point (thread mode only)"""
-        if not s.thread: return []
+        if not s.thread or s.em.opts.cs_none: return []
         if ptr is not None and ptr.kind == 'local' and ptr.data in s.priv: return []
         s.ncs += 1; k = s.ncs
-        return ['if (verif_cs()) { F->pc = %d; return 1; } CS_%d: ;' % (k, k)]
+        return ['if (verif_cs()) { F->pc = %d; return 1; }' % k, '@@CS %d@@' % k]
     def label(s, n):
         if n == '%entry__': return 'L_entry'
         return 'L_' + cid(n)
@@ -1037,23 +1069,26 @@ class FnEmit:
             # phis at head: assign from __in
             for I in ins:
                 if I.op == 'phi' and bl not in s.direct_phi: body.append('  %s = %s__in;' % (s.lname(I.res), s.lname(I.res)))
-            blk = []
+            segs = [[]]
             for I in ins:
                 if I.op == 'phi': continue
-                blk += ['  ' + x for x in s.instr(I, bl)]
-            if not s.thread:
-                # values that live only inside this basic block are declared in a C block scope: CBMC kills them at the
-                # closing brace / outgoing goto, so they take no part in later path merges
-                ld = ['  %s %s;' % (em.cty(s.types[n]), s.lname(n)) for n, b in s.blocklocal.items()
-                      if b == bl and n not in s.inl and s.types.get(n) is not None and not isinstance(s.types[n], VoidTy)]
-                body += ['{'] + ld + blk + ['}']
-            else:
-                body += blk
+                for x in s.instr(I, bl):
+                    m = re.fullmatch(r'@@CS (\d+)@@', x)
+                    if m: segs.append(int(m.group(1))); segs.append([])
+                    else: segs[-1].append('  ' + x)
+            # segment-local values are declared in a C block scope around their segment (see plan_inlining)
+            k = 0
+            for part in segs:
+                if isinstance(part, int):
+                    body.append('CS_%d: ;' % part); k += 1; continue
+                ld = ['  %s v_%s;' % (em.cty(s.types[n]), cid(n)) for n, b in s.blocklocal.items()
+                      if b == (bl, k) and n not in s.inl and s.types.get(n) is not None and not isinstance(s.types[n], VoidTy)]
+                body += ['{'] + ld + part + ['}']
         if s.thread:
             nm = em.fname(f.name)
             fields = []
             for n, t in s.types.items():
-                if isinstance(t, VoidTy) or t is None or n in s.inl: continue
+                if isinstance(t, VoidTy) or t is None or n in s.inl or n in s.blocklocal: continue
                 fields.append('  %s v_%s;' % (em.cty(t), cid(n)))
             for bl, ins in f.blocks.items():
                 for I in ins:
@@ -1181,7 +1216,7 @@ class FnEmit:
             if s.thread and hook.startswith('verif_switch'):
                 s.ncs += 1; k = s.ncs
                 em.hooks.add(hook)
-                return ['%s(%s); F->pc = %d; return 1; CS_%d: ;' % (hook, ', '.join(args), k, k)]
+                return ['%s(%s); F->pc = %d; return 1;' % (hook, ', '.join(args), k), '@@CS %d@@' % k]
             em.hooks.add(hook)
             if asg: return ['%s((char*)&%s%s);' % (hook, R, ''.join(', ' + a for a in args))]
             return ['%s(%s);' % (hook, ', '.join(args))]
@@ -1196,8 +1231,6 @@ class FnEmit:
                 if re.search(rx, name):
                     mn = '@' + fn; em.need_func(mn)
                     return ['%s%s(%s);' % (asg, em.fname(mn), ', '.join(args))]
-            em.need_func(name)
-            f = em.mod.funcs[name]
             cargs = list(args)
             for rx, fns in em.opts.blocking:
                 if re.search(rx, name):
@@ -1206,10 +1239,12 @@ class FnEmit:
                     em.need_func(bn); em.need_func(en)
                     if not s.thread: raise ValueError('blocking call outside thread entry: ' + s.f.name)
                     s.ncs += 1; k = s.ncs
-                    return ['%s(%s); F->pc = %d; return 2; CS_%d: %s%s();' % (em.fname(bn), ', '.join(args), k, k, asg, em.fname(en))]
+                    return ['%s(%s); F->pc = %d; return 2;' % (em.fname(bn), ', '.join(args), k), '@@CS %d@@' % k, '%s%s();' % (asg, em.fname(en))]
+            em.need_func(name)
+            f = em.mod.funcs[name]
             if s.thread and n.startswith('verif_block'):
                 s.ncs += 1; k = s.ncs
-                return ['CS_%d: if (!%s(%s)) { F->pc = %d; return 2; }' % (k, n, ', '.join(args), k)]
+                return ['@@CS %d@@' % k, 'if (!%s(%s)) { F->pc = %d; return 2; }' % (n, ', '.join(args), k)]
             if s.thread and not em.is_ext(name) and not n.startswith(('__CPROVER', 'nondet_')):
                 sys.stderr.write('WARNING: thread entry %s calls translated function %s (atomic)\n' % (s.f.name, name))
             if n == '__CPROVER_assert':
@@ -1282,6 +1317,7 @@ def main():
     ap.add_argument('--thread', action='append', default=[], help='regex: emit as resumable thread entry')
     ap.add_argument('--blocking', action='append', default=[], help='regex=begin_fn,end_fn')
     ap.add_argument('--cs-atomic-only', dest='cs_atomic_only', action='store_true')
+    ap.add_argument('--cs-none', dest='cs_none', action='store_true', help='cooperative: context switches only at blocking calls')
     ap.add_argument('--map', action='append', default=[], help='regex=fn : call harness fn instead')
     ap.add_argument('--asm', action='append', default=[], help='asmstring=hook')
     ap.add_argument('--list', action='store_true')
